@@ -8,7 +8,13 @@ Profiles of harness/cfg/cfg.c used here:
              exactly-once completion of network-free lookups, setters atomic on error
   lineindep  metamorphic: valid text F vs. F with junk lines inserted => same init status, same
              effective configuration E after init and after an awaited ares_reinit(), same
-             hosts / alias lookups; invalid setter strings fail and change nothing
+             hosts / alias lookups; invalid setter strings fail and change nothing; the two
+             readings of the junk-free source (creation, reload) agree with each other
+  single     absolute: one to three valid directives whose meaning the generator knows (every
+             documented option word, every nameserver spelling incl. link-local interfaces and
+             dns:// URIs, search/domain/LOCALDOMAIN, lookup via resolv.conf / nsswitch / netsvc /
+             svc, sortlist forms) => the governed setting has the directive's value after creation
+             and after reload; settings nothing mentions have their documented default
 Triggers of listed findings that would otherwise hit a large share of the cases live in small
 dedicated sub-workloads (opts zero=1, bigtries=1)."""
 import time
@@ -29,7 +35,8 @@ RULE = ("robust: one case = one generated environment (1-3 junk sources) + optio
         "(set of junk sources, init status, option mask).  lineindep: one case = valid environment "
         "F and F' = F + 1-3 junk lines of one class in one source (or an invalid setter string); "
         "non-trivial = F has >= 2 lines and initialises; distinct = (source, junk class, position "
-        "start/between/end, directive set of F)")
+        "start/between/end, directive set of F).  single: one case = 1-3 directives of different "
+        "settings; distinct = set of (directive, source it was written to)")
 
 
 def own(key):
@@ -64,6 +71,7 @@ def run(tier, seed, scale=1.0):
 
     res.merge(go("robust", n_rob))
     res.merge(go("lineindep", n_li))
+    res.merge(go("single", int((6000 if quick else 300000) * scale)))
     # dedicated sub-workloads for triggers of listed findings
     res.merge(go("robust", n_sub, opts={"zero": 1}, chunk=max(32, n_sub // 32)))
     res.merge(go("lineindep", n_sub // 2, opts={"zero": 1, "target": 0, "cls": 9},
